@@ -386,3 +386,23 @@ impl Candidates {
 fn is_relayed(addr: &Multiaddr) -> bool {
     addr.iter().any(|p| p == Protocol::P2pCircuit)
 }
+
+/// Verification hooks (add-only, `--cfg libp2p_verif`): read-only views of the bookkeeping.
+#[cfg(libp2p_verif)]
+impl Behaviour {
+    /// The tracked direct (non-relayed) connections per peer.
+    pub fn verif_direct_connections(&self) -> Vec<(PeerId, Vec<ConnectionId>)> {
+        self.direct_connections
+            .iter()
+            .map(|(p, s)| (*p, s.iter().copied().collect()))
+            .collect()
+    }
+
+    /// Sizes of `direct_to_relayed_connections` and `outgoing_direct_connection_attempts`.
+    pub fn verif_table_sizes(&self) -> (usize, usize) {
+        (
+            self.direct_to_relayed_connections.len(),
+            self.outgoing_direct_connection_attempts.len(),
+        )
+    }
+}
